@@ -56,6 +56,19 @@ func TestC04Proc(t *testing.T) {
 			Host: HostConf{Allowed: []string{"netrpc", "grpc"}, TLS: "none", Launch: "cmd", Legacy: 1, Script: "exec sleep 30", StartTimeoutMs: 1500},
 			Ops:  []string{"new", "start", "kill", "proc?"}})
 		exp = append(exp, beh{name: "silent", maxKillMs: 30000})
+		// failed the handshake: a program that is not a plugin prints a usage text (several lines) and either
+		// keeps running or exits; Start fails, Kill must still return and the process must be gone and reaped
+		for _, launch := range []string{"cmd", "runner"} {
+			for n, sc := range map[string]string{
+				"usage-text-then-stays": "echo 'usage: tool [flags]'; echo '  -h  help'; echo '  -v  version'; exec sleep 30",
+				"usage-text-then-exits": "echo 'usage: tool [flags]'; echo '  -h  help'; echo '  -v  version'; exit 2",
+			} {
+				cells = append(cells, Cell{Name: fmt.Sprintf("%s launch=%s plugin=%s", proto, launch, n), Plugin: PluginConf{LegacyProto: proto},
+					Host: HostConf{Allowed: []string{"netrpc", "grpc"}, TLS: "none", Launch: launch, Legacy: 1, Script: sc, StartTimeoutMs: 3000},
+					Ops:  []string{"new", "start", "kill", "proc?"}})
+				exp = append(exp, beh{name: "silent", maxKillMs: 30000})
+			}
+		}
 	}
 	results := runCells(base, cells)
 	out := &enumResult{Exhaustive: true, Outcomes: map[string]int{}}
@@ -79,7 +92,7 @@ func TestC04Proc(t *testing.T) {
 			if strings.HasPrefix(o.Op, "kill") && o.Ms > b.maxKillMs {
 				bad("T", "%s took %d ms", o.Op, o.Ms)
 			}
-			if strings.HasPrefix(o.Op, "kill") && o.Val == "false" && (c.Host.Launch != "cmd" || !strings.Contains(c.Name, "reattach") || o.Op == "kill:0") && !strings.Contains(c.Name, "silent") {
+			if strings.HasPrefix(o.Op, "kill") && o.Val == "false" && (c.Host.Launch != "cmd" || !strings.Contains(c.Name, "reattach") || o.Op == "kill:0") && b.name != "silent" {
 				// Exited() must be true for the client that was killed
 				if !(strings.Contains(c.Name, "reattach") && o.Op == "kill") {
 					bad("L", "Exited() is false after %s returned", o.Op)
